@@ -47,6 +47,23 @@ def evaluate(stats, text, expect_accept, desc=None, span=None, base_text=None):
     return "rejected"
 
 
+def evaluate_as_import(stats, base_text, bad_text, desc):
+    """A module that breaks a typing rule is rejected as well when it is an import of a well-typed
+    module - here one whose text occupies the very same lines and columns."""
+    files = {"m.emb": 'import "v.emb" as v\n' + base_text, "v.emb": "# imported\n" + bad_text, "o.emb": typed.OTHER_MODULE}
+    r = emb.compile_files(files)
+    case = {"files": files, "main": "m.emb", "expect": "reject", "mutation": desc}
+    if r.exc:
+        stats.fail(dict(kind="exception", **r.exc_sig), case, r.exc_text)
+        return "exception"
+    if r.accepted:
+        stats.fail({"kind": "ill-typed-import-accepted", "site": desc["site"], "parent": desc["parent"], "had": desc["had"], "got": desc["got"]}, case, "a module with mutation %r, rejected on its own, is accepted as an import of a well-typed module" % (desc,))
+        return "accepted"
+    for kind, t in emb.check_error_shape(r, files):
+        stats.fail({"kind": kind, "site": desc["site"]}, case, t)
+    return "rejected"
+
+
 def shard(idx, seed, n):
     stats = vlib.Stats()
 
@@ -69,6 +86,8 @@ def shard(idx, seed, n):
             if text2 == text:
                 continue
             o = evaluate(stats, text2, False, desc, spans2.get(tag))
+            if o == "rejected":
+                stats.classes["as-import-" + evaluate_as_import(stats, text, text2, desc)] += 1
             stats.case(text2, deep >= 3 and desc["where"] != "top", ["mutant", "mutant-" + o, "site:" + desc["site"], "parent:" + str(desc["parent"])], sample={"kind": "mutant", "mutation": desc, "text": text2[-700:]})
         # one violation from the arity / argument-kind / attribute-value catalogue
         name, tag, repl = rnd.choice(typed.LINE_VIOLATIONS)
@@ -79,6 +98,8 @@ def shard(idx, seed, n):
         if span:
             span = (span[0], span[1] + n_extra)
         o = evaluate(stats, text3, False, desc, span)
+        if o == "rejected":
+            stats.classes["as-import-" + evaluate_as_import(stats, text, text3, desc)] += 1
         stats.case(text3, deep >= 3, ["catalogue", "catalogue-" + o, "rule:" + name], sample={"kind": "catalogue", "rule": name, "text": text3[-600:]})
 
     vlib.hyp_run(st.integers(0, 2**63), body, n, seed=seed * 1051 + idx)
